@@ -545,7 +545,11 @@ func cbor2JsonOneObject(src *bufio.Reader, dst io.Writer) {
 
 	switch major {
 	case majorTypeUnsignedInt:
-		fallthrough
+		// The argument is unsigned: decodeInteger hands back its 64 bits, which
+		// must not be printed as a negative number once they reach 2^63.
+		n := decodeInteger(src)
+		dst.Write(strconv.AppendUint(nil, uint64(n), 10))
+
 	case majorTypeNegativeInt:
 		n := decodeInteger(src)
 		dst.Write([]byte(strconv.Itoa(int(n))))
